@@ -58,8 +58,11 @@ def face_normals(mesh : SurfaceMesh, name="normals", persistent:bool=True, dense
     else:
         normals = ArrayAttribute(float, len(mesh.faces), 3) if dense else Attribute(float, 3)
     for iT,T in enumerate(mesh.faces):
-        pA,pB,pC = (mesh.vertices[u] for u in T[:3])
-        normals[iT] = Vec.normalized(geom.cross(pB-pA, pC-pA))
+        pts = [mesh.vertices[u] for u in T]
+        # vector area of the face (Newell): for a triangle this is cross(pB-pA, pC-pA); for a polygon it does not
+        # depend on which vertex the face starts with, nor on the corner at its second vertex being reflex
+        N = sum(geom.cross(pts[i]-pts[0], pts[i+1]-pts[0]) for i in range(1,len(pts)-1))
+        normals[iT] = Vec.normalized(N)
     return normals
 
 @allowed_mesh_types(SurfaceMesh, VolumeMesh)
